@@ -156,8 +156,13 @@ def classify(scn: dict, detail: dict) -> str | None:
 
 
 def _work(scn: dict):
-    obs = observe(scn)
-    return judge(scn, obs), base_crosscheck(scn, obs)
+    try:
+        obs = observe(scn)
+        return judge(scn, obs), base_crosscheck(scn, obs)
+    except Exception:  # noqa: BLE001  (never let an exception object travel through the pool: unpicklable ones hang it)
+        import traceback
+
+        return None, "harness exception:\n" + traceback.format_exc()[-1500:]
 
 
 def nontrivial(scn: dict) -> bool:
@@ -208,17 +213,24 @@ def _observe_model(cid, model, nl, maps, req) -> dict:
         case["obs"] = {"outcome": "rejected", "rxns": [], "init": {}, "pts": [], "exc": type(e).__name__}
         return case
     rx = [{"name": n, "st": r["st"], "args": r["args"]} for n, r in lk.raw_reactions(lm).items()]
-    names = list(lm.get_initial_conditions())
+    try:
+        names = list(lm.get_initial_conditions())
+        dys = []
+        for tab in POINT_TABS:
+            y = {n: tab[(3 * j + len(n)) % len(tab)] for j, n in enumerate(names)}
+            dys.append((y, lm.get_right_hand_side({k: float(v) for k, v in y.items()}).to_dict()))
+    except Exception as e:  # noqa: BLE001  (the labelled model cannot be evaluated: recorded, TLC rejects the record)
+        case["obs"] = {"outcome": "unusable", "rxns": rx, "init": {}, "pts": [], "exc": f"{type(e).__name__}: {str(e)[:200]}"}
+        return case
     pts = []
-    for tab in POINT_TABS:
-        y = {n: tab[(3 * j + len(n)) % len(tab)] for j, n in enumerate(names)}
-        dy = lm.get_right_hand_side({k: float(v) for k, v in y.items()})
-        vals = {k: float(v) for k, v in dy.to_dict().items()}
-        if any(abs(v - round(v)) > 1e-6 for v in vals.values()):
-            raise MachineryError(f"non-integer derivative in an integer-valued case {cid}")
-        pts.append({"y": y, "dy": {k: int(round(v)) for k, v in vals.items()}})
+    for y, dy in dys:
+        vals = {k: float(v) for k, v in dy.items()}
+        # integer-valued model: the derivative is an integer; anything else is passed on as a value the
+        # specification cannot produce, so that TLC rejects the record
+        pts.append({"y": y, "dy": {k: (int(round(v)) if abs(v - round(v)) <= 1e-6 else 10**8 + int(v)) for k, v in vals.items()}})
     ini = lm.get_initial_conditions()
-    case["obs"] = {"outcome": "ok", "rxns": rx, "init": {k: int(round(float(v))) for k, v in ini.items()}, "pts": pts}
+    case["obs"] = {"outcome": "ok", "rxns": rx, "pts": pts,
+                   "init": {k: (int(round(float(v))) if abs(float(v) - round(float(v))) <= 1e-6 else 10**8) for k, v in ini.items()}}
     return case
 
 
@@ -241,6 +253,15 @@ def doc_example_cases() -> list[dict]:
 
 
 def random_case(args) -> dict:
+    try:
+        return _random_case(args)
+    except Exception:  # noqa: BLE001  (see _work)
+        import traceback
+
+        return {"id": args[1], "harness_exception": traceback.format_exc()[-1500:]}
+
+
+def _random_case(args) -> dict:
     """A random mass-action network, random label counts, random proper (or too short) maps."""
     from mxlpy import Model
 
@@ -372,11 +393,16 @@ def run(ctx: Ctx) -> int:
                  tpls=ALL_TPLS, maxnl=3, maxl=6, simulate="num=30", depth=60),
         ]
     else:
+        heavy = ["chain"]      # three mapped reactions: the maps multiply
         fams = [
-            dict(name="all_nl3", what="exhaustive: 12 templates, label counts 1..3, all maps with max(S,P)<=4, short maps, "
-                 "theorems + emission", tpls=ALL_TPLS, maxnl=3, maxl=4),
-            dict(name="init_all", what="exhaustive: every initial-label request combination (A+B->C and 2A->B, counts 1..3)",
-                 tpls=["bi", "homo"], maxnl=3, maxl=3, short=False, initall=True),
+            dict(name="all_nl3", what="exhaustive: 11 templates, label counts 1..3, all maps with max(S,P)<=4, short maps, "
+                 "theorems + emission", tpls=[t for t in ALL_TPLS if t not in heavy], maxnl=3, maxl=4),
+            dict(name="chain_nl2", what="exhaustive: 0->A->B->0 (three mapped reactions), label counts 1..2, all maps, short maps",
+                 tpls=heavy, maxnl=2, maxl=4),
+            dict(name="init_all", what="exhaustive: every initial-label request combination (A->B, A->0, counts 1..3; A+B->C counts 1..2)",
+                 tpls=["uni", "efflux"], maxnl=3, maxl=3, short=False, initall=True),
+            dict(name="init_bi", what="exhaustive: every initial-label request combination (A+B->C, counts 1..2)",
+                 tpls=["bi"], maxnl=2, maxl=2, short=False, initall=True),
             dict(name="deep", what="seeded simulation: all templates, counts 1..3, max(S,P)<=6",
                  tpls=ALL_TPLS, maxnl=3, maxl=6, simulate="num=1000", depth=60),
         ]
@@ -390,13 +416,31 @@ def run(ctx: Ctx) -> int:
             seen.add(k)
             uniq.append(s)
     scns = uniq
-    if len(scns) < (2000 if ctx.quick else 20000):
+    if len(scns) < (2000 if ctx.quick else 15000):
         raise MachineryError(f"only {len(scns)} cases emitted")
     n_rej = sum(1 for s in scns if s["outcome"] == "rejected")
     if n_rej == 0 or n_rej == len(scns):
         raise MachineryError("the case family does not contain both accepted and rejected maps")
     rep.notes["cases"] = {"total": len(scns), "rejected_expected": n_rej,
                           "by_template": {t: sum(1 for s in scns if s["tpl"] == t) for t in ALL_TPLS}}
+    # ---- binding self-test: one corrupted expected value must be noticed by the comparison ---------------------
+    probe = next(s for s in scns if s["outcome"] == "ok" and s["tpl"] == "bi")
+    probe_obs = observe(probe)
+    if judge(probe, probe_obs) is None:          # (a tree that already fails the probe is reported below, as a verdict)
+        for field in ("dy", "init", "args"):
+            bent = json.loads(json.dumps(probe))
+            if field == "dy":
+                k = sorted(fn_to_dict(bent["pts"][1]["dy"]))[0]
+                bent["pts"][1]["dy"][k] += 1
+            elif field == "init":
+                k = sorted(fn_to_dict(bent["init"]))[-1]
+                bent["init"][k] += 1
+            else:
+                bent["rxns"][0]["args"] = list(reversed(bent["rxns"][0]["args"]))
+            if judge(bent, probe_obs) is None:
+                raise MachineryError(f"a corrupted expected value ({field}) was not noticed by the replay comparison")
+    rep.notes["binding_selftest"] = "corrupting one expected dy / initial value / argument list of a replayed case is detected; " \
+                                    "a corrupted recorded observation is rejected by TLC (oracle)"
     # ---- spec -> code --------------------------------------------------------------------------------------
     results = pmap(_work, scns, chunk=32)
     for scn, (bad, cross) in zip(scns, results):
@@ -422,6 +466,18 @@ def run(ctx: Ctx) -> int:
     n_rand = 300 if ctx.quick else 4000
     rnd = random.Random(ctx.seed)
     cases += pmap(random_case, [(rnd.randrange(1 << 30), f"rand-{j}") for j in range(n_rand)], chunk=16)
+    # binding self-test: the documentation example's record with one observed derivative off by one must be rejected
+    bent = json.loads(json.dumps(cases[0]))
+    bent["id"] = "selftest-corrupted-observation"
+    if bent["obs"]["pts"]:
+        k0 = sorted(bent["obs"]["pts"][0]["dy"])[0]
+        bent["obs"]["pts"][0]["dy"][k0] += 1
+    else:                                        # (the tree under test refused the documentation example)
+        bent["obs"]["outcome"] = "ok"
+    cases.append(bent)
+    for c in cases:
+        if "harness_exception" in c:
+            raise MachineryError(f"random driver failed on {c['id']}:\n{c['harness_exception']}")
     verdicts = {}
     batch = 1000
     for lo in range(0, len(cases), batch):
@@ -433,6 +489,10 @@ def run(ctx: Ctx) -> int:
             verdicts[p["id"]] = p
     if len(verdicts) != len(cases):
         raise MachineryError(f"oracle judged {len(verdicts)} of {len(cases)} cases")
+    if verdicts["selftest-corrupted-observation"]["verdict"] == "accept":
+        raise MachineryError("TLC accepted a recorded observation with a corrupted derivative: "
+                             f"{verdicts['selftest-corrupted-observation']}")
+    cases = [c for c in cases if c["id"] != "selftest-corrupted-observation"]
     hist: dict[str, int] = {}
     for c in cases:
         v = verdicts[c["id"]]
